@@ -353,17 +353,26 @@ func (vc *VC) loopHead(b *ssa.BasicBlock, n int, h *Heap, reach string) *Heap {
 	}
 	// havoc
 	hh := h.clone()
-	mods, all := vc.loopMods(b)
+	mods, freshOnly, all := vc.loopMods(b)
 	if all {
 		vc.havocAll(hh)
 	} else {
+		a0 := vc.get(h, "$alloc")
 		for _, c := range sortedKeys(mods) {
 			if c == "$alloc" {
 				continue
 			}
-			vc.havoc(hh, c)
+			srt := vc.compSort[c]
+			if freshOnly[c] && !strings.HasPrefix(srt, "(Array Int ") {
+				continue
+			}
+			old := vc.get(hh, c)
+			n := vc.havoc(hh, c)
+			if freshOnly[c] {
+				// every write in the loop goes to objects allocated inside the loop
+				vc.emit(fmt.Sprintf("(assert (forall ((r Int)) (! (=> (<= r %s) (= (select %s r) (select %s r))) :pattern ((select %s r)))))", a0, n, old, n))
+			}
 		}
-		a0 := vc.get(h, "$alloc")
 		a1 := vc.fresh("$alloc", SInt)
 		vc.emit(fmt.Sprintf("(assert (>= %s %s))", a1, a0))
 		hh.m["$alloc"] = a1
@@ -451,13 +460,18 @@ func (vc *VC) backEdge(p, hdr *ssa.BasicBlock, h *Heap, reach string) {
 }
 
 // components a loop body may modify
-func (vc *VC) loopMods(hdr *ssa.BasicBlock) (map[string]bool, bool) {
+func (vc *VC) loopMods(hdr *ssa.BasicBlock) (map[string]bool, map[string]bool, bool) {
 	mods := map[string]bool{}
+	old := map[string]bool{}
 	all := false
 	for b := range vc.loopBody[hdr] {
 		for _, in := range b.Instrs {
-			m, a := vc.prog.instrMods(vc, in)
-			for c := range m {
+			ms, a := vc.prog.instrMods(vc, in)
+			for c := range ms.Old {
+				mods[c] = true
+				old[c] = true
+			}
+			for c := range ms.Fresh {
 				mods[c] = true
 			}
 			if a {
@@ -465,7 +479,13 @@ func (vc *VC) loopMods(hdr *ssa.BasicBlock) (map[string]bool, bool) {
 			}
 		}
 	}
-	return mods, all
+	freshOnly := map[string]bool{}
+	for c := range mods {
+		if !old[c] {
+			freshOnly[c] = true
+		}
+	}
+	return mods, freshOnly, all
 }
 
 // resolveLocal finds the value of a source-level local variable at the end of block at.
